@@ -77,7 +77,7 @@ def scheme(e):
     if t == "handler":
         return "(with-exception-handler (lambda (c) (push! 5 %d) (push! 6 (payload c)) %s) (lambda () %s))" % (e[1], scheme(e[2]), scheme(e[3]))
     if t == "raise":
-        if e[1] == ("const", 999):
+        if e[1] == ("const", 999) and PRIM_ERR[0]:
             # an error signalled by the VM itself (vm.c:1171 call_error_handler), not by the raise opcode; its
             # condition object is canonicalised to 999 by (payload c), which is what the machine raises here
             return "(car 999)"
@@ -98,6 +98,9 @@ def scheme(e):
                       "((eqv? c 12345)) (%s %s)" % (test, body)][style]
         return "(guard (c %s) %s)" % (clause, scheme(e[4]))
     raise ValueError(t)
+
+
+PRIM_ERR = [True]          # print (raise 999) as the primitive error (car 999); switched off only for triage in gc_stream
 
 
 def wrap(body):
@@ -676,7 +679,7 @@ GC_EXTRAS = [
 ]
 
 
-def _gc_run(d, path, extra, timeout=120):
+def _gc_run(d, path, extra, timeout=60):
     """one process of the asan build; returns (stdout, rc, stderr)"""
     import subprocess
     env = B.chibi_env(d, dict(extra, ASAN_OPTIONS=GC_ASAN))
@@ -761,7 +764,7 @@ def gc_stream(ctx, exe, bodies, label="forced-gc", only_env=None):
     except Exception:
         return                                          # recorded by ctx.build (build:asan)
     cases = gc_cases(ctx, exe, bodies)
-    tmpd = tempfile.mkdtemp(prefix="c06-gc-", dir=B.SCRATCH)
+    tmpd = tempfile.mkdtemp(prefix="tmp-c06-gc-", dir=B.SCRATCH)     # "tmp*": left alone by vlib.build._clean_stale of a concurrent run
     n_audit = 10 if not ctx.thorough else 80
     seeds = [ctx.rng.randrange(1, 10 ** 6) for _ in cases]
     stats = dict(runs=0, allocs=0, forced=0, region_max=0)
@@ -865,8 +868,26 @@ def gc_stream(ctx, exe, bodies, label="forced-gc", only_env=None):
                     env_min, rr = bisect(j, want, marks, env)
                 if rr is not None:
                     v, o, r, e = rr
+                sigcls = v
+                if "raise const 999" in name and len(marks) == 3:
+                    # triage: the same script with (car 999) replaced by (raise 999) (same trace).  If that one survives
+                    # every:1 over its run, the lost root is in the VM's own error signalling (sexp_raise /
+                    # call_error_handler, vm.c:1171-1219), not in the continuation / wind / handler machinery
+                    try:
+                        PRIM_ERR[0] = False
+                        alt = gc_program(program(parse_tokens(name.split())[0]))
+                    finally:
+                        PRIM_ERR[0] = True
+                    apath = os.path.join(tmpd, "alt%d.scm" % j)
+                    with open(apath, "w") as fh:
+                        fh.write(alt)
+                    ao, ar, ae, amarks, _t = _gc_calibrate(da, apath)
+                    if _gc_verdict(ao, ar, ae, want) is None and len(amarks) == 3:
+                        ao, ar, ae = _gc_run(da, apath, dict(CHIBI_VERIF_GC="every:1", CHIBI_VERIF_GC_START=str(amarks[1])))
+                        if _gc_verdict(ao, ar, ae, want) is None:
+                            sigcls = "vm-error-path"
                 tail = [l for l in (e or "").split("\n") if "ERROR" in l or "SUMMARY" in l or "VERIF-AUDIT" in l or " #0 " in l or " #1 " in l][:6]
-                ctx.violation("control-gc:" + v, input=name, schedule=env_min, first_failing_schedule=env, program=prog,
+                ctx.violation("control-gc:" + sigcls, failure=v, input=name, schedule=env_min, first_failing_schedule=env, program=prog,
                               run_region_allocations=[marks[1], marks[2]] if len(marks) == 3 else None,
                               expected=want, observed=dict(stdout=o[:400], rc=r, stderr=tail), stream=label,
                               replay=_gc_replay_cmd(da, prog, env_min))
@@ -895,18 +916,18 @@ def gc_bodies(ctx, m1, m2):
         return ("callcc" in hs and "throw" in hs) or bool(hs & {"raisec", "raise"}) and bool(hs & {"handler", "guard"})
     wc = [relabel(s) for n in range(4, 8) for s in enum_grammar(n, memo=m1, **WIND_CORE) if reenters(s)]
     dc = [relabel(s) for n in range(3, 6) for s in enum_grammar(n, memo=m2, **DYN_CORE) if reenters(s)]
-    k = 1 if not ctx.thorough else 12
-    out += rng.sample(wc, min(len(wc), 14 * k))
-    out += rng.sample(dc, min(len(dc), 12 * k))
+    k = 1 if not ctx.thorough else 6
+    out += rng.sample(wc, min(len(wc), 20 * k))
+    out += rng.sample(dc, min(len(dc), 16 * k))
     got = 0
-    while got < 8 * k:
+    while got < 10 * k:
         b = gen_random(rng, rng.choice([8, 10, 12, 14, 18]), Fresh())
         hs = heads(b)
         if "callcc" in hs and "throw" in hs and hs & {"wind", "windp", "param", "handler", "guard"}:
             out.append(b)
             got += 1
     if ctx.thorough:
-        for _ in range(10):
+        for _ in range(4):
             out += templates(rng)
     return out
 
@@ -1094,7 +1115,12 @@ def run(ctx):
                        "as a primitive error. Separately: travel-to-point! itself on every extent tree with <= 4 (thorough 5) points and every "
                        "(here,target) pair + random larger trees, vs the SPEC wind_script; sexp_save_stack/sexp_restore_stack on generated "
                        "stacks (incl. the growth boundary) vs the extracted stack model; 5 fixed programs escaping out of procedures called "
-                       "back from C.")
+                       "back from C. Stream forced-gc: scripts that capture and re-enter continuations (corpus, templates, samples of "
+                       "the exhaustive cores, random, and 10 programs outside the DSL: multiple values through continuations, generators, "
+                       "coroutines, deep stacks, error objects) run one per process on the asan build under forced collection schedules "
+                       "(every:1 = a collection before every allocation of the script's run, every:2/3, seeded; heap audit on a subset), "
+                       "started at the first allocation of the run found through marker allocations in the allocation log; output must equal "
+                       "the machine's trace, ASan silent; a failing schedule is bisected to a single at:k.")
     from gen import c06_travel, c06_shapes
     c06_travel.regen(ctx)
     c06_shapes.check(ctx)          # the hand-mirrored Scheme definitions still have the mirrored text
@@ -1143,6 +1169,8 @@ def run(ctx):
     ctx.assume("escapes from inside a before/after thunk are excluded (R7RS leaves them unspecified); thunks only push trace symbols")
     ctx.assume("threads x continuations, and the behaviour of an exception nobody handles at the REPL top level, are outside this check")
     ctx.assume("errors detected by primitives ((car 999)) are signalled as non-continuable exceptions to the current handler (chibi's behaviour; R7RS only says 'it is an error')")
+    ctx.trust("the forced-collection / allocation-log / poisoning hooks of /repo gc.c (SEXP_USE_VERIF_HOOKS) and ASan as the detector of "
+              "touching a swept object; the hand-computed results of the 10 non-DSL programs of the forced-gc stream")
     ctx.trust("the Python printer of DSL scripts to Scheme text (props/C06.py: scheme()) and the OCaml parser of the same token list")
 
 
@@ -1160,6 +1188,23 @@ def replay(ctx, data):
             s, _ = parse_tokens(c["input"].split())
             bodies.append(s[1][2][3])           # strip the show/callcc 0/handler 99 wrapper
         run_scripts(ctx, exe, d, bodies, "replay")
+    elif sig.startswith("control-gc"):
+        import tempfile
+        da = ctx.build("asan")
+        for c in data.get("failing_cases", []):
+            with tempfile.NamedTemporaryFile("w", suffix=".scm", dir=B.SCRATCH, delete=False) as fh:
+                fh.write(c["program"])
+                path = fh.name
+            try:
+                o, r, e = _gc_run(da, path, dict(c.get("schedule") or {}))
+            finally:
+                os.unlink(path)
+            v = _gc_verdict(o, r, e, c["expected"])
+            ctx.count(1, key=("gc-replay", c["input"]), nontrivial=True)
+            if v is not None:
+                ctx.violation("control-gc:" + v, input=c["input"], schedule=c.get("schedule"), program=c["program"], expected=c["expected"],
+                              observed=dict(stdout=o[:400], rc=r, stderr=[l for l in e.split("\n") if "ERROR" in l or "SUMMARY" in l][:4]),
+                              replay=_gc_replay_cmd(da, c["program"], dict(c.get("schedule") or {})))
     elif sig.startswith("travel-to-point"):
         travel_cases(ctx, exe, d)
     elif sig.startswith("c-callback-escape"):
